@@ -16,13 +16,14 @@ RULE = (
     "ones, early-firing joins with failing or slow branches, synthetic before/after/on-failure stages that fail, "
     "suspending stages without a signal, jump loops that hit the limit, mutex / deferred-choice siblings, a parent with synthetic "
     "children next to a failing sibling whose StartStage is held back until everything else has drained) x delivery "
+    "schedules - also with a transient 'database is locked' injected at the COMMIT of every transaction in turn - x delivery "
     "schedule (random / LIFO order, withheld acks, one message held back k steps); plus the same family run by three "
     "worker threads interleaved at SQL-statement granularity (random / PCT schedules). After the queue is drained the "
     "four quiescence predicates are evaluated on store.retrieve(). Non-trivial = quiescent run whose final state is not "
     "all-SUCCEEDED; distinct = (workflow status, sorted multiset of stage statuses, spec shape)."
 )
 ASSUMPTIONS = ["SQLite backend", "quiescence = queue_messages empty after virtual-time warps; wait-budget exhaustion (max_stage_wait_retries=6) ending TERMINAL is legal and counted"]
-MIN_OBS = {"quiescent_runs": {"quick": 1000, "thorough": 20000}, "nonsuccess_final_states": {"quick": 100, "thorough": 2000}, "late_start_runs": {"quick": 100, "thorough": 800}}
+MIN_OBS = {"quiescent_runs": {"quick": 1000, "thorough": 20000}, "nonsuccess_final_states": {"quick": 100, "thorough": 2000}, "late_start_runs": {"quick": 100, "thorough": 800}, "commit_faults_injected": {"quick": 150, "thorough": 1500}}
 TIMEOUT = {"quick": 600, "thorough": 3000}
 
 HOLD_TYPES = ["StartStage", "CompleteStage", "CompleteTask", "RunTask", "CancelStage", "CompleteWorkflow", "ContinueParentStage", "JumpToStage"]
@@ -55,6 +56,7 @@ def gen_cases(tier: str, seed: int) -> list[dict]:
     cases = [{"spec_i": i, "seed": seed, "nsched": k} for i in range(n)]
     cases += [{"kind": "race", "i": i, "seed": seed, "runs": 12} for i in range(24 if tier == "quick" else 200)]
     cases += [{"kind": "late_start", "i": i, "seed": seed} for i in range(6 if tier == "quick" else 40)]
+    cases += [{"kind": "commit_fault", "i": i, "seed": seed} for i in range(10 if tier == "quick" else 80)]
     return cases
 
 
@@ -135,9 +137,85 @@ def _late_start(case: dict) -> dict:
     return {"violations": uniq, "obs": dict(obs), "keys": sorted(keys)}
 
 
+class _CommitFault:
+    """One-shot failpoint: the n-th COMMIT issued by the engine fails with 'database is locked' (another
+    connection was reading at that instant); everything the transaction wrote is rolled back by the caller."""
+
+    def __init__(self, n: int) -> None:
+        self.n, self.count, self.fired, self.where = n, 0, False, None
+
+    def __call__(self, conn, sql, args) -> None:
+        if self.fired or sql != "COMMIT" or not conn.in_transaction:
+            return
+        import threading
+
+        from .. import vtask
+
+        w = vtask._current
+        if w is None or not w.current.get(threading.current_thread().name):
+            return  # only commits made while a message is being handled (not the submitting client's)
+        if self.count == self.n:
+            self.fired = True
+            self.where = str(w.current.get(threading.current_thread().name))
+            import sqlite3
+
+            raise sqlite3.OperationalError("database is locked")
+        self.count += 1
+
+
+def _commit_fault(case: dict) -> dict:
+    """A transient lock error at COMMIT time of EVERY transaction of the run in turn (the engine's own retry
+    policies or the queue's redelivery have to carry on): afterwards the workflow must still reach a final status."""
+    from .. import hooks
+
+    rng = random.Random(case["seed"] * 1543 + case["i"])
+    spec = _spec_for(case["i"] * 7 + 3, case["seed"]) if case["i"] % 2 else rng.choice(specs.CONFLUENT_FAMILY)()
+    base = delivery_run(spec, max_steps=1500)
+    obs: Counter = Counter()
+    keys: set = set()
+    violations = []
+    if not base.quiescent:
+        return {"violations": [], "obs": {"reference_not_quiescent": 1}, "keys": []}
+    ncommits = len([c for c in base.commits if c[3]])
+    positions = list(range(ncommits))
+    if len(positions) > 40:
+        positions = sorted(rng.sample(positions, 40))
+    for n in positions:
+        fp = _CommitFault(n)
+        hooks.H.stmt_hook = fp
+        try:
+            run = delivery_run(spec, max_steps=base.steps * 4 + 100)
+        finally:
+            hooks.H.stmt_hook = None
+        obs["evaluations"] += 1
+        if not fp.fired:
+            continue
+        obs["commit_faults_injected"] += 1
+        if run.budget_exhausted or not run.quiescent:
+            obs["budget_exhausted"] += 1
+            continue
+        obs["quiescent_runs"] += 1
+        v = oracles.attribute(oracles.quiescence_check(run, "C05", spec), run, "C05")
+        if run.state["wf"] != base.state["wf"] and not v:
+            obs["outcome_changed_by_commit_fault"] += 1
+        for x in v:
+            x.update(spec=spec["name"], commit_fault_at=n, commit_fault_in=fp.where)
+        violations += v
+        keys.add(f"commitfault:{spec['name'].split('_')[0]}:{run.state['wf']}")
+    seen = set()
+    uniq = []
+    for x in violations:
+        if x["sig"] not in seen:
+            seen.add(x["sig"])
+            uniq.append(x)
+    return {"violations": uniq, "obs": dict(obs), "keys": sorted(keys)}
+
+
 def run_case(case: dict) -> dict:
     if case.get("kind") == "race":
         return _race(case)
+    if case.get("kind") == "commit_fault":
+        return _commit_fault(case)
     if case.get("kind") == "late_start":
         return _late_start(case)
     spec = _spec_for(case["spec_i"], case["seed"])
